@@ -4,7 +4,7 @@ from __future__ import annotations
 import numpy as np
 from shapely.geometry import Point
 
-from .. import builders, ref
+from .. import builders, ref, sequences
 from ..runner import LibraryRaised, Recorder, lib
 
 PROPERTY = 'C04'
@@ -17,6 +17,7 @@ RULE = (
     "force p.intersects(point) over all reference polygons, lowest index.  Non-trivial: points hit by "
     ">= 2 cells, points in holes, points just outside a cell edge that hit nothing."
     ' Also: grids of 10x20, 8x9, 6x7 cells and 42/81-face lattice meshes (the number of raw spatial-index hit lists that come back unsorted is counted), cells that overlap their neighbours, points a whole number of turns (+-360, +-720) away from a cell, and the deprecated spatial_index wrapper item by item.'
+    " Datasets also arrive with a history: warmed convention, copy, deep copy, pickle, netCDF round trip, fully chunked (dask), and hand-built conventions for coordinates autodetection would not pick (decoy pair), after warm / pickle. Also (operation sequences, mc/sequences.py): for 8 base datasets and every sequence `first [middle] query` over 36 operations (queries, in-place edits a user makes, transforms whose result is used next; quick length 2, thorough length 3) ending in one of this property's own queries, the answer on the one used object equals the answer on a never-used rebuild. Second phase: the first case of every distinct outcome and kind (thorough: every case, for expensive checks every kind) again with debug logging enabled, under numpy.errstate(all='ignore'), and in python -O child interpreters."
 )
 LEVEL_TEXT = ('every query point of a dataset-derived set (interiors, vertices, edge midpoints, +-1/16 off every edge, hole interiors, far points, a (4nx+1)x(4ny+1) lattice) on every dataset of the family list, against brute-force intersects + lowest index')
 LEVEL_NOTE = ('GEOS predicates exact on dyadic coordinates')
@@ -30,7 +31,7 @@ def bounds(tier):
     return {'datasets': 'builders.family_specs(tier) with defined geometry', 'lattice': '(4nx+1)x(4ny+1)'}
 
 
-def cases(tier):
+def _cases_first_call(tier):
     out = []
     for spec in builders.family_specs(tier):
         if spec['family'] == 'cf2d' and spec.get('bounds') == 'derived' and spec.get('holes', 'none') != 'none':
@@ -106,7 +107,7 @@ def query_points(truth, polys) -> list[tuple[float, float]]:
     return list(points)
 
 
-def run_case(case):
+def _run_case_first_call(case):
     rec = Recorder()
     ds, truth = builders.build({k: v for k, v in case.items() if k != 'io'})
     if case.get('io') == 'reopen':
@@ -196,3 +197,20 @@ def run_case(case):
             rec.check(not hits, f"{fp}/select-point-raised", f"select_point({x}, {y}) hits {hits}", 'dataset', str(err))
     rec.outcome([truth.family, face_shape, outcomes])
     return rec.result()
+
+
+from ..runner import coarse_environment_key as environment_key  # noqa: E402  (expensive cases: second phase on one case per kind)
+ENVIRONMENTS_ON_REPRESENTATIVES_ONLY = True
+
+
+def cases(tier):
+    # first calls on freshly built datasets, then operation sequences on one object (mc/sequences.py)
+    return _cases_first_call(tier) + sequences.cases_for(PROPERTY, tier)
+
+
+def run_case(case):
+    if case.get('part') == 'sequence':
+        rec = Recorder()
+        sequences.run_case(PROPERTY, case, rec)
+        return rec.result()
+    return _run_case_first_call(case)
